@@ -144,6 +144,6 @@ var strPool = []string{"", "a", "b", "hi", "abc", "Hello", "x y", "key", "boom",
 	"nl\nline", "\x00nul", "caf\xc3\xa9", "\xff\xfe", "zzz", "A", "lua 5.4"}
 var numStrPool = []string{"10", "7", " 7 ", "0x10", "-3", "0", "42", "  12", "0X0a"}
 var fieldPool = []string{"x", "y", "n", "name", "val", "key", "id", "count", "end", "a b"}
-var intPool = []int64{0, 1, 2, 3, 4, 5, 7, 8, 10, 16, 31, 32, 63, 64, 100, 255, 256, 1000, 65535, 1 << 31, 1<<31 - 1, 1 << 32,
+var intPool = []int64{0, 1, 2, 3, 4, 5, 7, 8, 10, 16, 31, 32, 63, 64, 100, 255, 256, 1000, 65535, 32767, 32768, 32769, 40000, 50000, 65534, 65536, -32768, -32769, -40000, -65535, 1 << 31, 1<<31 - 1, 1 << 32,
 	1 << 53, 1<<53 + 1, 1<<62 + 3, 9223372036854775807, -1, -2, -5, -7, -64, -100, -9223372036854775807}
 var fltPool = []float64{0.0, 0.5, 1.0, 1.5, 2.0, 2.25, 3.0, 4.0, 0.125, 10.0, 100.5, 1024.0, 1e10, 65536.0, 9007199254740992.0, 3.75}
